@@ -140,7 +140,7 @@ Example C08_example_keys :
   /\ finalize 4 {| tuples_to_lists := true; sets_to_lists := false |} (VDict [(VTuple [z; z], VInt 1)]) = Unhashable.
 Proof. vm_compute. repeat split. Qed.
 Example C08_example_calls :
-  let cat := fun l : list Z => fold_right Z.add (-41) (map (fun z => z - 41 + 41) l) - 41 * (Z.of_nat (length l) - 2) in
+  let cat := fun l : list Z => fold_right Z.add 0 l - 41 * (Z.of_nat (length l) - 1) in   (* size of a concatenation *)
   let e := CApp cat [CVal 71; CApp cat [CVal 71; CVal 71]] in      (* a + (b + c), 30 characters each *)
   csize e = 131 /\ fst (crun 131 (fun l => hd 0 l) e) = Some 131 /\ fst (crun 130 (fun l => hd 0 l) e) = None
   /\ snd (crun 130 (fun l => hd 0 l) e) = [71; 71; 101; 71; 101].
